@@ -10,7 +10,7 @@ ASSUMED = {
             'T[0,0,0].real is the whole value of the trailing 1x1 factor (real diagonal of R)'],
     'C02': ['K_qr / K_svd callee contracts (see C01, C12)', 'closure under operation histories is the induction over the per-operation contracts; '
             'TDVP/DMRG steps, from_opgraph and the Hamiltonian constructors are covered by the bounded histories only'],
-    'C03': ['K_svd at tolerance 0 (u diag(s) v = A, isometries) as callee contract of split_mps_tensor', 'Python lists as sequences',
+    'C03': ['K_svd at tolerance 0 (u diag(s) v = A, isometries) as callee contract of split_mps_tensor: no longer a bare assumption, it is discharged from the body of split_matrix_svd by vt/zqrv.py in the C12 check, relative to the contracts of np.linalg.svd and retained_bond_indices', 'Python lists as sequences',
             'qnumber_flatten may return a view of its argument for a single list (may-alias reported by engine F for multiply_mpo: decided by the snapshot monitor)'],
     'C04': ['Python lists as sequences; complex scalars T[0,0] are opaque values at the predicate level'],
     'C05': ['minimum_vertex_cover returns a vertex cover of minimum size (K_cover; weak duality proved in Lean, validity/maximality bounded in C18)'],
@@ -47,7 +47,7 @@ BOUNDED_ONLY = {
     'C09': ['exactness on a complete manifold', 'time reversibility'],
     'C10': ['variational bounds', 'monotonicity', 'last energy equals the energy of the returned state', 'exact ground state on a complete manifold'],
     'C11': ['floating-point residuals of Q R = A and Q^H Q = I (the deductive proof is in exact arithmetic)'],
-    'C12': ['error identity ||A - u s v||^2 = sum of discarded s^2', 'tol = 0 reproduces A', 'floating-point residuals of the isometry clauses'],
+    'C12': ['error identity ||A - u s v||^2 = sum of discarded s^2 for tol > 0', 'floating-point residuals of the isometry clauses and of the zero-tolerance product'],
     'C13': ['scale in [sqrt(1 - L tol), 1]', 'error identity for compress', 'first truncated bond keeps the prescribed Schmidt values', 'from_vector error bound'],
     'C14': ['orthonormality of the Krylov vectors', 'projected map equals the tridiagonal / Hessenberg matrix', 'positivity of beta'],
     'C15': ['Ritz value bounds', 'norm preservation of the Hermitian exponential', 'exactness once the Krylov space is exhausted'],
